@@ -332,7 +332,28 @@ def rw_spawn_calls(text, log):
                     hit = (i, inner_close, outer_close)
                     break
         if hit is None:
-            break
+            # second shape: thread::spawn(move || -> T { RECV.METHOD(ARGS) })  ->  spawn__METHOD(RECV, ARGS)
+            hit2 = None
+            for i in range(len(st) - 10):
+                if st[i][1] == 'thread' and st[i + 1][1] == '::' and st[i + 2][1] == 'spawn' and st[i + 3][1] == '(' and st[i + 4][1] == 'move' and st[i + 5][1] == '||' and st[i + 6][1] == '->':
+                    oc = rtok.match_close(st, i + 3)
+                    j = i + 7
+                    while st[j][1] != '{':
+                        if st[j][1] in ('(', '['):
+                            j = rtok.match_close(st, j)
+                        j += 1
+                    bc = rtok.match_close(st, j)
+                    if bc + 1 == oc and st[j + 1][0] == 'ident' and st[j + 2][1] == '.' and st[j + 3][0] == 'ident' and st[j + 4][1] == '(' and rtok.match_close(st, j + 4) == bc - 1:
+                        hit2 = (i, j, bc, oc)
+                        break
+            if hit2 is None:
+                break
+            i, j, bc, oc = hit2
+            recv, meth = st[j + 1][1], st[j + 3][1]
+            args = text[st[j + 4][3]:st[bc - 1][2]]
+            text = _replace_spans(text, [(st[i][2], st[oc][3], 'spawn__%s(%s, %s)' % (meth, recv, ' '.join(args.split())))])
+            n += 1
+            continue
         i, ic, oc = hit
         callee = st[i + 6][1]
         spans = [(st[i][2], st[i + 6][3], 'spawn__' + callee), (st[oc][2], st[oc][3], '')]
@@ -544,9 +565,12 @@ def build_fn(fs, repo, effectful, table_keys, canary=False):
         elif fs.slice['kind'] == 'range':
             a0, _ = find_anchor(ost, fs.slice['from'], body_open + 1, body_close)
             sa, _ = stmt_bounds(ost, a0, a0, body_open + 1, body_close)
-            b0, _ = find_anchor(ost, fs.slice['to'], body_open + 1, body_close)
-            sb, _ = stmt_bounds(ost, b0, b0, body_open + 1, body_close)
-            s_off, e_off = ost[sa][2], ost[sb][2]
+            if fs.slice['to'] == '__END__':
+                s_off, e_off = ost[sa][2], ost[body_close][2]
+            else:
+                b0, _ = find_anchor(ost, fs.slice['to'], body_open + 1, body_close)
+                sb, _ = stmt_bounds(ost, b0, b0, body_open + 1, body_close)
+                s_off, e_off = ost[sa][2], ost[sb][2]
         elif fs.slice['kind'] == 'jobbody':
             # R6: body of the closure passed to .execute(move || {..}) inside `within`
             _, body, line0 = rw_lift_job(otext, 'x', [])
